@@ -647,6 +647,16 @@ async def load_scripts(
                 src_info.force = src_info.autoload
 
     #
+    # a file inside an app or module package is gone: that package has changed
+    #
+    for global_ctx_name in ctx_delete:
+        parts = global_ctx_name.split(".")
+        if global_ctx_name not in ctx2files and len(parts) > 2 and parts[0] in {"apps", "modules"}:
+            root = f"{parts[0]}.{parts[1]}"
+            if root in ctx2files:
+                ctx2files[root].force = True
+
+    #
     # force reload if any files uses a module that is bring reloaded by
     # recursively following each import; first find which modules are
     # being reloaded
